@@ -91,6 +91,7 @@ def generate(seed: int, tier: str) -> dict:
         "after": after,
         "finalize_between": chance(orr, 0.6),
         "drop_source": chance(orr, 0.4),
+        "twice": chance(orr, 0.3),
     }
 
 
@@ -200,6 +201,24 @@ def run(scn) -> Result:
             extra = sorted(k for k in R1 if k not in R0)
             if extra:
                 res.violate("C19.noextra", "restore", entries=[list(k) for k in extra[:4]])
+
+            # C19.values again after a second round trip: a restored simulation is a
+            # simulation like any other ---------------------------------------------
+            if not res.violations and scn.get("twice"):
+                directory2 = f"/sim/dump{seams.SimFS._uniq + 1}"
+                seams.SimFS._uniq += 1
+                try:
+                    dump_simulation(restored, directory2)
+                    again = restore_simulation(directory2, world.tbs)
+                    again.max_spiral_loops = sim0_loops
+                except Exception as e:  # noqa: BLE001
+                    res.violate("C19.values", "restore2", what="second round trip raised", error=type(e).__name__, detail=str(e)[:200])
+                else:
+                    res.count("clause:C19.values.twice")
+                    R2 = readable(again, env)
+                    if canon({f"{k[0]}@{k[1]}": v for k, v in R2.items()}) != canon({f"{k[0]}@{k[1]}": v for k, v in R0.items()}) or structure(again) != S0:
+                        res.violate("C19.values", "restore2", what="second round trip differs from the original")
+                    restored = again
 
             # C19.calc -----------------------------------------------------------
             if not res.violations:
